@@ -409,6 +409,8 @@ def coq_op(t):
         "clear": lambda: "MClear %s" % a[0],
         "clearw": lambda: "MClearW %s" % a[0],
         "ptreq": lambda: "MPtrEq %s %s" % (a[0], a[1]),
+        "allocw": lambda: "MAllocWith %s %s [%s] [%s]" % (a[0], KINDS[a[1]], "; ".join(coq_opt(x) for x in a[2:5]),
+                                                          "; ".join(coq_opt(x) for x in a[5:7])),
     }
     return "OMicro (%s)" % table[m]()
 
